@@ -120,6 +120,8 @@ class Node:
             value_str = 'true' if value else 'false'
         elif isinstance(value, float):
             value_str = _yaml_representer.represent_float(value).value
+        elif value is None:
+            value_str = 'null'
         else:
             value_str = str(value)
         start_mark = self.yaml_node.start_mark
